@@ -168,4 +168,68 @@ theorem ternSparse_of {fuel : Nat} {m : Mode} {mont : Bool} {hw N : Nat} {qs : L
   rw [h3]
   rfl
 
+/-! ### Montgomery output of the fixed-weight sampler -/
+
+theorem mapRowsLvl_congr_rows (g g' : Nat → List Nat → List Nat) :
+    ∀ (qs : List Nat) (pol : Poly), (∀ q row, row ∈ pol → g q row = g' q row) →
+      mapRowsLvl g qs pol = mapRowsLvl g' qs pol := by
+  intro qs
+  induction qs with
+  | nil => intro pol _; rfl
+  | cons q qs ih =>
+    intro pol h
+    cases pol with
+    | nil => rfl
+    | cons row rest =>
+      simp only [mapRowsLvl]
+      rw [ih rest (fun q' row' hr => h q' row' (List.mem_cons_of_mem _ hr)), h q row List.mem_cons_self]
+
+theorem mapRowsLvl_total (g : Nat → List Nat → List Nat) :
+    ∀ (qs : List Nat) (pol : Poly), qs.length ≤ pol.length → ∃ r', mapRowsLvl g qs pol = .ok r' := by
+  intro qs
+  induction qs with
+  | nil => intro pol _; exact ⟨pol, rfl⟩
+  | cons q qs ih =>
+    intro pol hl
+    cases pol with
+    | nil => simp at hl
+    | cons row rest =>
+      obtain ⟨t, ht⟩ := ih rest (by simpa using hl)
+      exact ⟨g q row :: t, by simp [mapRowsLvl, ht]⟩
+
+theorem sparseRow_mont {N : Nat} {sel : List (Nat × Nat)} {rest : List Nat} (q : Nat) (row : List Nat)
+    (hperm : (sel.map Prod.fst ++ rest).Perm (List.range N)) (hrow : row.length = N) :
+    sparseRow .read (ternLut true q) q sel rest row =
+      (sparseRow .read (ternLut false q) q sel rest row).map (fun a => MForm a q (brc q)) := by
+  apply List.ext_getElem
+  · simp [sparseRow_length]
+  · intro p h1 h2
+    have hp : p < N := by rw [sparseRow_length, hrow] at h1; exact h1
+    obtain ⟨o, _, _, hfind, hval⟩ := sparseRow_getD .read (ternLut true q) q row hperm hrow p hp
+    obtain ⟨o', _, _, hfind', hval'⟩ := sparseRow_getD .read (ternLut false q) q row hperm hrow p hp
+    have hoo : o = o' := by rw [hfind] at hfind'; exact Option.some.inj hfind'
+    subst hoo
+    have hpr' : p < (sparseRow .read (ternLut false q) q sel rest row).length := by
+      rw [sparseRow_length, hrow]; exact hp
+    rw [List.getElem_map, ← getD_of_lt _ _ h1, hval, ← getD_of_lt _ _ hpr', hval']
+    cases o.2 with
+    | some c => exact ternLut_mont q (c + 1)
+    | none => exact (MForm_zero q (brc q)).symm
+
+/-- Montgomery output = `MForm` of the plain output, same bytes consumed (fixed weight) -/
+theorem ternSparse_mont {fuel hw N : Nat} {qs : List Nat} {pol r : Poly} {s s' : Bytes}
+    (hrows : ∀ row ∈ pol, row.length = N)
+    (h : ternSparse fuel .read false hw N qs pol s = .ok (r, s')) :
+    ∃ r', mformPoly qs r = .ok r' ∧ ternSparse fuel .read true hw N qs pol s = .ok (r', s') := by
+  obtain ⟨rbs, s1, sel, rest, h1, h2, _, hperm, _, hm⟩ := ternSparse_ok h
+  have hle := (mapRowsLvl_ok _ qs pol r hm).2.1
+  obtain ⟨r', hr'⟩ := mapRowsLvl_total
+    (fun q row => sparseRow .read (ternLut true q) q sel rest row) qs pol hle
+  refine ⟨r', ?_, ternSparse_of h1 h2 hr'⟩
+  unfold mformPoly
+  rw [mapRowsLvl_comp _ _ qs pol r hm, ← hr']
+  apply mapRowsLvl_congr_rows
+  intro q row hrow
+  exact (sparseRow_mont q row hperm (hrows row hrow)).symm
+
 end Lattigo.Sampler
